@@ -128,8 +128,10 @@ class Handler:
                     nm = x.get('name', '')
                     if re.match(r'^(emit|memcpy)', nm):
                         emits += 1
-                    elif x.get('fn') and self.F.has_func(x['fn']) and nm not in ('getImm32', 'getModCond', 'getModMem', 'getModShift', 'isZeroOrPowerOf2'):
+                    if x.get('fn') and self.F.has_func(x['fn']) and nm not in ('getImm32', 'getModCond', 'getModMem', 'getModShift', 'isZeroOrPowerOf2', 'emit', 'emit32', 'emit64', 'emitByte', 'rvi', 'rvc'):
                         helper_calls.append(x)
+                        if re.match(r'^(load|store|gen)', nm):
+                            emits += 1
         conds = []
         for c, taken in p.conds:
             s, pol = self.atom(c)
